@@ -10,7 +10,8 @@ from vcommon import Run
 from xhair import Ob, replay_call, replay_file, run_obligations
 
 H = 'C17_workflow.py'
-EXEC_FUNCS = ('exec_add', 'exec_context', 'replace_task', 'insert_workflow', 'add_operator', 'static_str_inputs')
+EXEC_FUNCS = ('exec_add', 'exec_context', 'replace_task', 'replace_then_gather', 'insert_workflow', 'add_operator',
+              'static_str_inputs')
 
 
 def confirm(ob, call, rep):
@@ -38,7 +39,8 @@ def build(thorough):
     nmax = 5 if thorough else 4
     # pin depth of the leading edge booleans per number of tasks (keeps every process below ~1/3 of its budget)
     for func, pins, top in (('exec_add', {4: 2, 5: 5}, nmax), ('exec_context', {4: 2, 5: 6}, nmax),
-                            ('replace_task', {4: 2}, 4)):
+                            ('replace_task', {4: 2}, 4),
+                            ('replace_then_gather', {3: 1, 4: 4}, 4 if thorough else 3)):
         for n in range(1, top + 1):
             for e in bits(pins.get(n, 0)):
                 env = dict(VH_N=n, VH_EPIN=e)
@@ -81,8 +83,8 @@ def build(thorough):
     add('static_str_inputs', 'excl_results', dict(VH_MAXSTR=12 if thorough else 8, VH_EXCL_RESULTS=1))
     # reachability twins
     tw = dict(VH_N=4, VH_NA=2, VH_NB=2, VH_PM=0)
-    for f in ('exec_add', 'exec_context', 'insert_context_structure', 'replace_task', 'insert_workflow',
-              'add_operator', 'static_str_inputs', 'keys_unique', 'replicates', 'exec_models'):
+    for f in ('exec_add', 'exec_context', 'insert_context_structure', 'replace_task', 'replace_then_gather',
+              'insert_workflow', 'add_operator', 'static_str_inputs', 'keys_unique', 'replicates', 'exec_models'):
         obs.append(Ob(f'{f}__twin', H, f + '__twin', 120, kind='twin', env=tw))
     # longest first
     heavy = {'insert_workflow': 0, 'exec_context': 1, 'replace_task': 2, 'add_operator': 3, 'exec_add': 4}
@@ -118,6 +120,8 @@ def main():
         context='every subset of tasks taking `context`' + (' (5 tasks: subsets of t0..t2 only)' if thorough else '')
                 + ', symbolic context value, through the real execute_workflow',
         replace_task='every task position, <= 4 tasks',
+        replace_then_gather='add tasks, (observe), replace one, gather all current sinks by add_task / insert_workflow; '
+                            '<= 3 tasks (thorough 4), every position, observations on/off',
         insert_context_structure=f'<= {4 if thorough else 3} tasks',
         insert_workflow='A and B of <= 3 tasks each with symbolic edges; predecessors None / one Task / non-empty '
                         'sublist of A ascending or reversed; cases (NA, NB, predecessors mode 0 None/1 Task/2 list, '
